@@ -12,6 +12,7 @@ import Mathlib.Order.Defs.LinearOrder
 import Proofs.Lemmas.C09Order
 import Proofs.Lemmas.C09Fixed
 import Proofs.Lemmas.C09Obs
+import Proofs.Lemmas.C09Num
 import Proofs.C08
 
 namespace C09
@@ -206,6 +207,32 @@ theorem fixed_spec_nodup (pn : Bytes → NumC) (f : Field) (l : List Bytes) (h :
     · intro e; subst e; omega
 
 example : (fixedMap [[97], [98], [97]]) = [([97], 2), ([98], 1)] := by decide
+
+/-! ### The specified numeric value (Model/Spec/ParseNum.lean) -/
+
+/-- **parseNum_spec_order**: for any assignment of specified numeric values to strings — in
+particular `Spec.ParseNum.parseNum`, the exact-rational reading of float literals and SI/IEC
+suffixed numbers — "numbers by exact value (−Inf, finite, +Inf) before NaN before non-numbers" is
+the sign function of a strict weak order (a rank into the linear order (class, ℚ))… -/
+theorem parseNum_spec_order (val : Bytes → Spec.ParseNum.SNum) :
+    SignOfWeakOrder (cmpByRank fun v => Spec.ParseNum.rank (val v)) :=
+  cmpByRank_weak _
+
+/-- …hence `less` with every `num` field ordered by the SPECIFIED value (and the other kinds as in
+the code) is a strict total order: an instance of `less_strict_total`. -/
+theorem less_strict_total_spec_num (pn : Bytes → NumC) (flat : List Field) :
+    StrictTotalOn flat (lessBy (fun f => match f.order with
+      | .num => cmpByRank fun v => Spec.ParseNum.rank (Spec.ParseNum.parseNum v)
+      | _ => f.cmp pn) flat) := by
+  apply less_strict_total
+  intro f _
+  cases ho : f.order with
+  | num => exact parseNum_spec_order _
+  | first => simp only []; exact field_cmp_weak pn f
+  | alpha => simp only []; exact field_cmp_weak pn f
+  | fixed l => simp only []; exact field_cmp_weak pn f
+
+example : Spec.ParseNum.parseNum [49, 90, 105] = .fin (mkRat (2 ^ 70) 1) := by decide +kernel
 
 /-! ### First-observation order -/
 
